@@ -22,8 +22,8 @@ mkdir -p bin work
     ( cd coq && { [ -f Makefile ] && [ Makefile -nt _CoqProject ] || coq_makefile -f _CoqProject -o Makefile >/dev/null; } && timeout 3000 make -j16 2>&1 | grep -v "WARNING: overwriting environment" ) > work/coq_build.log 2>&1 || { cat work/coq_build.log | tail -40; echo "COQ BUILD FAILED"; exit 3; }
   fi
   if [ "$what" = all ] || [ "$what" = ocaml ]; then
-    if [ ! -x bin/modelrun ] || [ -n "$(find coq/model coq/extract ocaml/sx.ml ocaml/jsonp.ml ocaml/driver.ml -newer bin/modelrun -name '*.v' -o -newer bin/modelrun -name '*.ml' | head -1)" ]; then
-      ( cd ocaml && timeout 600 coqc -Q ../coq RV ../coq/extract/Extract.v && timeout 600 ocamlfind ocamlopt -O2 -package zarith -linkpkg -w -a Model.mli Model.ml sx.ml jsonp.ml driver.ml -o ../bin/modelrun ) > work/ocaml_build.log 2>&1 || { tail -40 work/ocaml_build.log; echo "OCAML BUILD FAILED"; exit 3; }
+    if [ ! -x bin/modelrun ] || [ -n "$(find coq/model coq/extract ocaml/sx.ml ocaml/driver.ml -newer bin/modelrun -name '*.v' -o -newer bin/modelrun -name '*.ml' | head -1)" ]; then
+      ( cd ocaml && timeout 600 coqc -Q ../coq RV ../coq/extract/Extract.v && timeout 600 ocamlfind ocamlopt -O2 -package zarith -linkpkg -w -a Model.mli Model.ml sx.ml driver.ml -o ../bin/modelrun ) > work/ocaml_build.log 2>&1 || { tail -40 work/ocaml_build.log; echo "OCAML BUILD FAILED"; exit 3; }
     fi
   fi
   if [ "$what" = race ]; then
